@@ -29,7 +29,37 @@ pub fn run_scenario(seed: u64, i: usize, tier: Tier) -> Outcome {
     tcfg.packet_size = *r.pick(&[min_size, min_size + 1, 84, 300, 1024]).max(&min_size);
     tcfg.payload_pattern = *r.pick(&[0u8, 0x55, 0xff]);
     let dist = r.range(2, 12) as usize;
-    let n_nat = r.below(4) as usize;
+    // a boundary of one's complement arithmetic: in some IPv4 / Dublin worlds (no NAT) the port
+    // that changes per round is chosen so that the UDP checksum of the probe computes to zero
+    // in one of the first rounds
+    let mut zero_csum = false;
+    if i % 4 != 3 && !cell.unprivileged && i % 5 == 0 {
+        let payload = vec![tcfg.payload_pattern; usize::from(tcfg.packet_size).saturating_sub(28)];
+        let len = 8 + payload.len();
+        let (fixed, varies_dest) = match tcfg.ports {
+            trippy_core::PortDirection::FixedSrc(p) => (Some(p.0), true),
+            trippy_core::PortDirection::FixedDest(p) => (Some(p.0), false),
+            _ => (None, false),
+        };
+        if let (Some(fixed), std::net::IpAddr::V4(dst)) = (fixed, tcfg.target) {
+            let pseudo = crate::wire::pseudo4(scen::HOST_V4, dst, crate::wire::PROTO_UDP, len);
+            let found = (1024u16..64_000).find(|p| {
+                let (sp, dp) = if varies_dest { (fixed, *p) } else { (*p, fixed) };
+                let mut u = Vec::with_capacity(len);
+                u.extend_from_slice(&sp.to_be_bytes());
+                u.extend_from_slice(&dp.to_be_bytes());
+                u.extend_from_slice(&(len as u16).to_be_bytes());
+                u.extend_from_slice(&[0, 0]);
+                u.extend_from_slice(&payload);
+                crate::wire::csum(&[&pseudo, &u]) == 0
+            });
+            if let Some(p) = found {
+                tcfg.initial_sequence = p - r.below(3) as u16;
+                zero_csum = true;
+            }
+        }
+    }
+    let n_nat = if zero_csum { 0 } else { r.below(4) as usize };
     let mut nat_at: Vec<usize> = (0..n_nat).map(|_| r.below(dist as u64 - 1) as usize).collect();
     nat_at.sort_unstable();
     nat_at.dedup();
@@ -58,6 +88,9 @@ pub fn run_scenario(seed: u64, i: usize, tier: Tier) -> Outcome {
     let topo = Topology { hops, target: t, tcp: TcpMode::Rst };
     let wcfg = world_cfg(topo, seed ^ i as u64);
     let site = cell.name();
+    if zero_csum {
+        o.count("worlds_with_a_probe_whose_udp_checksum_computes_to_zero", 1);
+    }
     let replay = replay_of("C19", seed, i, &tcfg, &wcfg.topo);
     let Some((world, run)) = run_guarded(&wcfg, &tcfg, true, |_| {}, &mut o, &site, &replay, &format!("scenario {i}")) else {
         return o;
@@ -114,7 +147,7 @@ pub fn run_scenario(seed: u64, i: usize, tier: Tier) -> Outcome {
 
 pub fn run(tier: Tier, seed: u64, only: Option<usize>) -> i32 {
     let mut rep = Report::new("C19", "exploration", tier, seed);
-    rep.rule = "scenario = (IPv4/UDP/Dublin cell x port direction x privilege x extension mode | any other cell) x path of 2..12 hops with 0..3 NAT devices at arbitrary distances (source address rewritten, with or without port rewrite; one in six worlds rewrites only the port), silent hops before/after, packet sizes {28,29,84,300,1024}, patterns {0,0x55,0xff}; ground truth per responding hop = UDP checksum in the quotation the simulator generated vs. that of the previous responder (first responder: vs. the checksum captured at send_to); distinct by (cell, device layout, distance)".into();
+    rep.rule = "scenario = (IPv4/UDP/Dublin cell x port direction x privilege x extension mode | any other cell) x path of 2..12 hops with 0..3 NAT devices at arbitrary distances (source address rewritten, with or without port rewrite; one in six worlds rewrites only the port), silent hops before/after, one privileged Dublin/IPv4 world in five without NAT whose per-round port makes the probe's UDP checksum compute to zero in one of the first rounds, packet sizes {28,29,84,300,1024}, patterns {0,0x55,0xff}; ground truth per responding hop = UDP checksum in the quotation the simulator generated vs. that of the previous responder (first responder: vs. the checksum captured at send_to); distinct by (cell, device layout, distance)".into();
     rep.assumptions = vec![
         "a NAT device updates the UDP checksum incrementally (RFC 1624) and, on the return path, restores addresses and ports of the quoted datagram but not its checksum".into(),
         "the snapshot is taken inside the publish callback, so Hop::last_nat_status() of a hop that responded in the round is that round's status".into(),
